@@ -120,6 +120,8 @@ pub fn scratchpad(
     form: PadForm,
 ) -> Scratchpad {
     let mut p = Scratchpad::new(owner.public_key(), 0);
+    // counter 0 exists for the unsigned form only: the pad as `Scratchpad::new` yields it, nothing written, nothing signed
+    let raw_counter = counter;
     let counter = counter.max(1);
     match form {
         PadForm::Valid | PadForm::ForeignSigner => {
@@ -130,7 +132,7 @@ pub fn scratchpad(
             p.update_and_sign(Bytes::copy_from_slice(data), signer);
         }
         PadForm::Unsigned => {
-            for _ in 0..counter {
+            for _ in 0..raw_counter {
                 p.increment();
             }
         }
